@@ -1,7 +1,7 @@
 // SPDX-License-Identifier: BSL-1.1 OR Apache-2.0
 use std::{
     collections::HashSet,
-    sync::Arc,
+    sync::{Arc, Mutex, MutexGuard, PoisonError},
     time::{SystemTime, UNIX_EPOCH},
 };
 
@@ -14,6 +14,18 @@ use crate::{
     metadata::GcStats,
     streaming::{get_int, get_pointers, WRITER_PREFIX},
 };
+
+/// Serialises every read-modify-write of chunk records and reference counts.
+///
+/// Chunk records are shared by all artifacts with the same content; storing a chunk
+/// (exists-check, then create or increment), releasing it, and collecting it must not
+/// interleave, or a count is lost and a chunk that is still in use gets collected.
+static CHUNK_LOCK: Mutex<()> = Mutex::new(());
+
+/// Hold this while examining and updating chunk records or their reference counts.
+pub(crate) fn chunk_lock() -> MutexGuard<'static, ()> {
+    CHUNK_LOCK.lock().unwrap_or_else(PoisonError::into_inner)
+}
 
 /// Background garbage collector for orphaned chunks.
 pub struct GarbageCollector {
@@ -83,6 +95,7 @@ impl GarbageCollector {
         let chunk_keys = self.store.scan("_blob:chunk:");
 
         for chunk_key in chunk_keys.into_iter().take(self.config.batch_size) {
+            let _guard = chunk_lock();
             if let Ok(tensor) = self.store.get(&chunk_key) {
                 let refs = get_int(&tensor, "_refs").unwrap_or(0);
                 let created =
@@ -114,6 +127,8 @@ impl GarbageCollector {
     /// Returns an error if chunk deletion fails.
     #[allow(clippy::unused_async)]
     pub async fn full_gc(&self) -> Result<GcStats> {
+        let _guard = chunk_lock();
+
         // 1. Build reference set from unfinished writers, then from all artifacts
         //    (a writer drops its record only after its artifact record exists)
         let mut referenced: HashSet<String> = HashSet::new();
@@ -178,6 +193,8 @@ impl GarbageCollector {
 
 /// Decrement chunk reference count. Used when deleting artifacts.
 ///
+/// The caller holds [`chunk_lock`].
+///
 /// # Errors
 ///
 /// Returns an error if the store operation fails.
@@ -195,6 +212,8 @@ pub fn decrement_chunk_refs(store: &TensorStore, chunk_key: &str) -> Result<()> 
 }
 
 /// Increment chunk reference count. Used for deduplication.
+///
+/// The caller holds [`chunk_lock`].
 ///
 /// # Errors
 ///
